@@ -362,12 +362,19 @@ type pseudoHeader struct {
 }
 
 func (sc *serverConn) parseHeader(st *stream) (http.Header, pseudoHeader, error) {
-	ftype, err := st.readFrameHeader()
-	if err != nil {
-		return nil, pseudoHeader{}, err
-	}
-	if ftype != frameTypeHeaders {
-		return nil, pseudoHeader{}, &streamError{errH3MessageError, "received other frames when expecting HEADERS"}
+	for {
+		ftype, err := st.readFrameHeader()
+		if err != nil {
+			return nil, pseudoHeader{}, err
+		}
+		if ftype == frameTypeHeaders {
+			break
+		}
+		// Unknown frame types are ignored, also before the HEADERS frame;
+		// a known frame type here is an error.
+		if err := st.discardUnknownFrame(ftype); err != nil {
+			return nil, pseudoHeader{}, err
+		}
 	}
 	header := make(http.Header)
 	var pHeader pseudoHeader
